@@ -94,8 +94,31 @@ Definition has_errors (j : json) : bool :=
   let one x := match x with JObj m => match jget "errors" m with Some (JArr (_ :: _)) => true | _ => false end | _ => false end in
   match j with JArr l => existsb one l | _ => one j end.
 
-Definition c15_holds (o : observed) : bool :=
+(* requests that are malformed whatever the planner thinks: wrong method, unknown content type,
+   a body that is not JSON or neither an object nor a list of objects, GET variables that are not
+   a JSON object, GET extensions that are not a JSON object *)
+Definition malformed (r : request) : bool :=
+  let bad (o : option (option json)) :=
+    match o with
+    | None | Some (Some (JObj _)) | Some (Some JNull) => false
+    | _ => true
+    end in
+  match r with
+  | ROther => true
+  | RGet g => bad (g_vars g) || bad (g_ext g)
+  | RPostJSON ct b =>
+      negb (ctype_ok ct) ||
+      match b with
+      | None => true
+      | Some (JObj _) => false
+      | Some (JArr l) => negb (forallb (fun j => match j with JObj _ => true | _ => false end) l)
+      | Some _ => true
+      end
+  end.
+
+Definition c15_holds (r : request) (o : observed) : bool :=
   negb (ob_panic o) &&
+  (negb (malformed r) || (Nat.leb 400 (ob_status o) && Nat.ltb (ob_status o) 500 && forallb negb (ob_ran o))) &&
   match ob_body o with
   | None => false
   | Some j =>
